@@ -80,10 +80,14 @@ def c12(res, tier, seed):
         for x in VALS:
             for y in (SHIFTS if op in ("<<", ">>") else VALS):
                 combos.append((op, x, y))
+    for op in ("<<", ">>"):                  # negative left operands: the compile-time fold must shift like the VM does (arithmetic)
+        for x in (-16, -3, -1):
+            for y in (1, 2, 3):
+                combos.append((op, x, y))
     for x in VALS:
         combos.append(("neg", x, 0)); combos.append(("bnot", x, 0))
     if tier == "quick":
-        combos = r.sample(combos, 90)
+        combos = r.sample(combos, 90) + [c for c in combos if c[1] < 0 and c[0] == ">>"][:6]
     buf_pool = [cond.cond_buffer(r) for _ in range(40)]
     fixed = [b"#1#", b"..#1#", b"#1##1#", b".#1#.+2+.=3=", b"", b"0123#1#7#1#", b"#1#+2+=3=#1#"]
     for op, x, y in combos:
@@ -91,9 +95,12 @@ def c12(res, tier, seed):
             if op == "neg": E = {"t": "neg", "x": lx}
             elif op == "bnot": E = {"t": "bnot", "x": {"t": "bnot", "x": lx}} if r.random() < 0.5 else {"t": "bin", "op": "&", "l": {"t": "bnot", "x": lx}, "r": I(7)}
             else: E = {"t": "bin", "op": op, "l": lx, "r": I(y)}
+            if x < 0 and op == ">>":
+                E = {"t": "bin", "op": "+", "l": {"t": "paren", "x": E}, "r": I(10)}      # (-16 >> 2) + 10 = 6: a usable offset / count
             # the value of E, to plant the string exactly there (the shortcut taken for `$a at <constant>` keeps only matches at the
             # offset the compiler computed: a wrong compile-time value shows only when the string really is at the right one)
             vE = pyval(op, x, y)
+            if x < 0 and op == ">>" and vE is not None: vE += 10
             planted = [b"." * vE + b"#1#..", b"." * vE + b"#1#" + b"." * 5 + b"#1#"] if vE is not None and 0 <= vE <= 48 else []
             ps = positions(E)
             chosen = ps if tier != "quick" else ([ps[0]] + r.sample(ps[1:], 2) if planted else r.sample(ps, 3))
